@@ -2305,7 +2305,7 @@ func (sq *Queue) findPreemptionFenceRoot(priorityMap map[string]int64, currentPr
 	shouldFenceByMax := false
 	maxResource := sq.GetMaxResource()
 	if maxResource != nil && len(maxResource.Resources) > 0 {
-		projected := resources.Add(sq.allocatedResource, askResource)
+		projected := resources.Add(sq.GetAllocatedResource(), askResource)
 		shouldFenceByMax = !maxResource.StrictlyGreaterThanOrEqualsOnlyExisting(projected)
 	}
 	// Return this queue as fence root if:
